@@ -110,9 +110,6 @@ Definition path_inputs_ok (opts : list opt) (e : env) : bool :=
 
 (** *** the shapes on which the exporters are NOT uniform (recorded findings); the uniform
     statements are made outside them *)
-(** F-C20-2 (log): the generic endpoint's path ends in '/'. *)
-Definition gen_path_no_trailing_slash (e : env) : bool :=
-  match rd_url (gen_ep e) with Some u => negb (ends_with_slash (u_path u)) | None => true end.
 (** F-C20-3 (trace, metric): the signal-specific endpoint's path is not tidy. *)
 Definition spec_path_tidy (e : env) : bool :=
   match rd_url (spec_ep e) with Some u => is_nil (u_path u) || tidy (u_path u) | None => true end.
@@ -121,7 +118,7 @@ Definition is_some {A} (o : option A) : bool := match o with Some _ => true | No
 Definition path_shape_uniform (f : family) (opts : list opt) (e : env) : bool :=
   is_some (last_some opt_path opts) ||
   match f with
-  | FLog => is_some (rd_path_specific (spec_ep e)) || gen_path_no_trailing_slash e
+  | FLog => true
   | _ => spec_path_tidy e
   end.
 (** F-C20-4 (trace, metric): a compression variable holds an unknown name. *)
